@@ -17,6 +17,7 @@ type globalInit struct {
 	n       int64
 	isSlice bool
 	scalar  *ssa.Const
+	fn      *ssa.Function // initialised with a function (var F = pkg.F)
 	ok      bool
 	why     string
 }
@@ -79,6 +80,9 @@ func (e *Engine) globalInitOf(g *ssa.Global) *globalInit {
 				}
 				if x.Addr == g {
 					switch v := x.Val.(type) {
+					case *ssa.Function:
+						gi.fn = v
+						gi.ok = true
 					case *ssa.Const:
 						gi.scalar = v
 						gi.ok = true
